@@ -283,3 +283,71 @@ def w1(prog):
         findings.append({"key": "W1:zw_query::" + f["n"], "where": f["l"],
                          "msg": "zw_query holds execution state (%s) that would be shared by all executions" % f["t"], "detail": None})
     return inst, findings
+
+
+def q4c(prog):
+    """storage that some operation mutates in place (value_seq::m_seq, reached through get_seq()) is never aliased by copying:
+    every initialisation/assignment of the field is a fresh allocation, except in the explicit sharing constructor"""
+    inst, findings = [], []
+    # which field does get_seq() hand out
+    gs = prog.func_opt("value_seq::get_seq")
+    if gs is None:
+        raise Broken("anchor value_seq::get_seq vanished")
+    rets = [x for x in walk(gs["body"]) if x.get("k") == "return"]
+    fld = None
+    if len(rets) == 1:
+        e = unwrap(rets[0]["e"])
+        if isinstance(e, dict) and e.get("k") == "mem":
+            fld = e["n"]
+    if fld is None:
+        raise Broken("value_seq::get_seq no longer returns a member directly (unmodelled shape)")
+
+    def arms(e):
+        u = e
+        while isinstance(u, dict) and u.get("k") in ("ilist", "ctor") and len(u.get("a", [])) == 1 and not (u.get("k") == "ctor" and not u.get("cm") and False):
+            nxt = u["a"][0]
+            if isinstance(nxt, dict) and nxt.get("k") in ("ilist", "ctor", "cond", "call", "ref", "mem"):
+                u = nxt
+            else:
+                break
+        if isinstance(u, dict) and u.get("k") == "cond":
+            return arms(u["a"]) + arms(u["b"])
+        return [u]
+    sites = []
+    for f in prog.funcs.values():
+        if f.get("cls") != "value_seq":
+            continue
+        for i in f.get("inits", []):
+            if i.get("field") == fld and i.get("written"):
+                sites.append((f, i["init"], f["l"]))
+        for x in walk(f.get("body")):
+            if x.get("k") == "asg" and isinstance(unwrap(x["lhs"]), dict) and unwrap(x["lhs"]).get("k") == "mem" and unwrap(x["lhs"])["n"] == fld:
+                sites.append((f, x["rhs"], x.get("l") or f["l"]))
+            if x.get("k") == "call" and x.get("op") == "=" and x["a"] and isinstance(unwrap(x["a"][0]), dict) and \
+               unwrap(x["a"][0]).get("k") == "mem" and unwrap(x["a"][0])["n"] == fld and unwrap(x["a"][0]).get("c") == "value_seq":
+                sites.append((f, x["a"][1], x.get("l") or f["l"]))
+    if len(sites) < 3:
+        raise Broken("fewer initialisations of value_seq::%s than confirmed by hand (3)" % fld)
+    for f, init, loc in sites:
+        key = "Q4c:%s@%s" % (f["fid"].split("(")[0] + "/" + str(len(f["params"])), loc)
+        verdicts = []
+        for a in arms(init):
+            u = unwrap(a)
+            if isinstance(u, dict) and u.get("k") == "call" and u.get("f", "").startswith("std::make_shared<"):
+                verdicts.append("fresh")
+            elif isinstance(u, dict) and u.get("k") == "ref" and u.get("d") == "param":
+                verdicts.append("param:" + u["n"])
+            elif isinstance(u, dict) and u.get("k") == "mem" and u["n"] == fld:
+                verdicts.append("alias:" + short(u))
+            else:
+                verdicts.append("other:" + short(u)[:40])
+        inst.append((key, {"initialised_from": verdicts}))
+        is_sharing_ctor = f.get("isctor") and any(p["t"].startswith("std::shared_ptr<") for p in f["params"])
+        for v in verdicts:
+            if v.startswith("alias:") or (v.startswith("param:") and not is_sharing_ctor):
+                findings.append({"key": key, "where": loc,
+                                 "msg": "%s makes the new value share the element storage of another sequence (%s); `add` concatenates in place into that storage, so a copy (the constant of a `[]` literal, a value on the caller's input stack) can be modified by an execution" % (f["q"], v),
+                                 "detail": None})
+            elif v.startswith("other:"):
+                raise Broken("initialiser of value_seq::%s at %s has an unmodelled shape: %s" % (fld, loc, v))
+    return inst, findings
